@@ -54,7 +54,7 @@
      IdxQuery      <- Exec / Count / Exists of Where(tree built from li.Filter | si.Filter,
                       MatchKeys, Match, And, Or, Not)
      ScanQuery     <- Exec of Where(Match(Holds(tree)))
-     out           <- error class of the call ("ok" | "notfound")
+     UpdOut        <- error class of the Upd call ("ok" | "notfound" = query.ErrNotFound)
 
    Pinned beyond the property (compared at drift level only):
      * ordered iteration inside a tx that has staged writes (documented as not
@@ -84,9 +84,8 @@ VRank(v) == CHOOSE i \in 1..3 : AllVals[i] = v
 VARIABLES phase,  \* "pre" (rows exist, table not opened) | "open"
           kv,     \* [Key -> Val \cup {Absent}]
           idx,    \* [f : [Val -> SUBSET Key], r : [Key -> Val \cup {Absent}]]
-          tx,     \* [Tx -> [st, w, d]]
-          out     \* class of the last call's result
-vars == <<phase, kv, idx, tx, out>>
+          tx      \* [Tx -> [st, w, d]]
+vars == <<phase, kv, idx, tx>>
 
 NoWrites == [k \in Key |-> Keep]
 EmptyIdx == [f |-> [v \in Val |-> {}], r |-> [k \in Key |-> Absent]]
@@ -112,20 +111,28 @@ IdxApply(ix, m) == IdxApplyS(ix, m, {k \in Key : m[k] # Keep})
 KvOver(base, m) == [k \in Key |-> IF m[k] = Keep THEN base[k] ELSE IF m[k] = Del THEN Absent ELSE m[k]]
 WOver(base, m)  == [k \in Key |-> IF m[k] = Keep THEN base[k] ELSE m[k]]
 
-OpenTx == {t \in Tx : tx[t].st = "open"}
-Views  == OpenTx \cup {DB}
-ViewOf(u) == IF u = DB THEN kv ELSE KvOver(kv, tx[u].w)
-Rows(u) == {k \in Key : ViewOf(u)[k] # Absent}
+\* Read-side operators take the state S = [kv, idx, tx] explicitly so that the history
+\* generator can evaluate them on recorded states; Cur is the current state.
+Cur == [kv |-> kv, idx |-> idx, tx |-> tx]
+OpenTxS(S) == {t \in Tx : S.tx[t].st = "open"}
+ViewsS(S)  == OpenTxS(S) \cup {DB}
+ViewOfS(S, u) == IF u = DB THEN S.kv ELSE KvOver(S.kv, S.tx[u].w)
+RowsS(S, u) == {k \in Key : ViewOfS(S, u)[k] # Absent}
+OpenTx == OpenTxS(Cur)
+Views  == ViewsS(Cur)
+ViewOf(u) == ViewOfS(Cur, u)
+Rows(u) == RowsS(Cur, u)
 
 \* LookupIndex.Get / SortedIndex.Get: committed buckets, then delta.merge
-Committed(vals) == UNION {idx.f[v] : v \in vals \cap Val}
-IdxGet(u, vals) ==
-  IF u = DB THEN Committed(vals)
-  ELSE LET d == tx[u].d
+CommittedS(S, vals) == UNION {S.idx.f[v] : v \in vals \cap Val}
+IdxGetS(S, u, vals) ==
+  IF u = DB THEN CommittedS(S, vals)
+  ELSE LET d == S.tx[u].d
            touched == {k \in Key : d[k] # Keep}
-       IN IF touched = {} THEN Committed(vals)
-          ELSE (Committed(vals) \ {k \in touched : d[k] = Del \/ d[k] \notin vals})
+       IN IF touched = {} THEN CommittedS(S, vals)
+          ELSE (CommittedS(S, vals) \ {k \in touched : d[k] = Del \/ d[k] \notin vals})
                \cup {k \in touched : d[k] \in vals}
+IdxGet(u, vals) == IdxGetS(Cur, u, vals)
 
 ---------------------------------------------------------------------------
 (* filter trees *)
@@ -170,7 +177,8 @@ Holds(T, k, v) ==
     [] T.op = "and"  -> \A i \in DOMAIN T.args : Holds(T.args[i], k, v)
     [] T.op = "or"   -> \E i \in DOMAIN T.args : Holds(T.args[i], k, v)
     [] T.op = "not"  -> ~Holds(T.arg, k, v)
-ScanQuery(T, u) == {k \in Rows(u) : Holds(T, k, ViewOf(u)[k])}
+ScanQueryS(T, S, u) == {k \in RowsS(S, u) : Holds(T, k, ViewOfS(S, u)[k])}
+ScanQuery(T, u) == ScanQueryS(T, Cur, u)
 
 \* filter.go: does the (materialised) filter carry a candidate key set, and which
 RECURSIVE Bounded(_)
@@ -179,39 +187,41 @@ Bounded(T) ==
     [] T.op \in {"pred", "not"} -> FALSE
     [] T.op = "and" -> \E i \in DOMAIN T.args : Bounded(T.args[i])   \* intersectKeys
     [] T.op = "or"  -> \A i \in DOMAIN T.args : Bounded(T.args[i])   \* unionKeys
-RECURSIVE RKeys(_, _)
-RKeys(T, u) ==
-  CASE T.op = "eq"   -> IdxGet(u, Range(T.vals))
+RECURSIVE RKeysS(_, _, _)
+RKeysS(T, S, u) ==
+  CASE T.op = "eq"   -> IdxGetS(S, u, Range(T.vals))
     [] T.op = "keys" -> Range(T.keys)
-    [] T.op = "and"  -> {k \in Key : \A i \in DOMAIN T.args : Bounded(T.args[i]) => k \in RKeys(T.args[i], u)}
-    [] T.op = "or"   -> UNION {RKeys(T.args[i], u) : i \in DOMAIN T.args}
+    [] T.op = "and"  -> {k \in Key : \A i \in DOMAIN T.args : Bounded(T.args[i]) => k \in RKeysS(T.args[i], S, u)}
+    [] T.op = "or"   -> UNION {RKeysS(T.args[i], S, u) : i \in DOMAIN T.args}
     [] OTHER -> Key
 \* evalChild on a materialised child: key-set membership, then the child's eval.
 \* eq / and keep their construction-time eval (a predicate on the decoded row); or / not
 \* get a resolver-returned eval closed over their materialised children.
-RECURSIVE MEval(_, _, _, _)
-MEval(T, u, k, v) ==
-  /\ Bounded(T) => k \in RKeys(T, u)
+RECURSIVE MEvalS(_, _, _, _, _)
+MEvalS(T, S, u, k, v) ==
+  /\ Bounded(T) => k \in RKeysS(T, S, u)
   /\ CASE T.op \in {"eq", "and", "pred"} -> Holds(T, k, v)
        [] T.op = "keys" -> TRUE
-       [] T.op = "or"   -> \E i \in DOMAIN T.args : MEval(T.args[i], u, k, v)
-       [] T.op = "not"  -> ~MEval(T.arg, u, k, v)
+       [] T.op = "or"   -> \E i \in DOMAIN T.args : MEvalS(T.args[i], S, u, k, v)
+       [] T.op = "not"  -> ~MEvalS(T.arg, S, u, k, v)
 \* Retrieve.Exec: candidates (execKeys) or every row (execFilter), fetched through the view
-IdxQuery(T, u) == {k \in Rows(u) : MEval(T, u, k, ViewOf(u)[k])}
+IdxQueryS(T, S, u) == {k \in RowsS(S, u) : MEvalS(T, S, u, k, ViewOfS(S, u)[k])}
+IdxQuery(T, u) == IdxQueryS(T, Cur, u)
 
 \* SortedQuery.walkOrder over committed state: the values visited, in order
 Rep(v, n) == [i \in 1..n |-> v]
-RECURSIVE AscFrom(_)
-AscFrom(i) == IF i > NVal THEN <<>> ELSE Rep(AllVals[i], Cardinality(idx.f[AllVals[i]])) \o AscFrom(i + 1)
-RECURSIVE DescFrom(_)
-DescFrom(i) == IF i < 1 THEN <<>> ELSE Rep(AllVals[i], Cardinality(idx.f[AllVals[i]])) \o DescFrom(i - 1)
+RECURSIVE AscFrom(_, _)
+AscFrom(S, i) == IF i > NVal THEN <<>> ELSE Rep(AllVals[i], Cardinality(S.idx.f[AllVals[i]])) \o AscFrom(S, i + 1)
+RECURSIVE DescFrom(_, _)
+DescFrom(S, i) == IF i < 1 THEN <<>> ELSE Rep(AllVals[i], Cardinality(S.idx.f[AllVals[i]])) \o DescFrom(S, i - 1)
 Take(s, n) == IF n = 0 \/ n >= Len(s) THEN s ELSE SubSeq(s, 1, n)
 \* q = [dir, cur, lim]; cur = "none" when After was not called
-WalkVals(q) ==
+WalkValsS(S, q) ==
   LET s == IF q.dir = "asc"
-           THEN AscFrom(IF q.cur = "none" THEN 1 ELSE VRank(q.cur) + 1)
-           ELSE DescFrom(IF q.cur = "none" THEN NVal ELSE VRank(q.cur) - 1)
+           THEN AscFrom(S, IF q.cur = "none" THEN 1 ELSE VRank(q.cur) + 1)
+           ELSE DescFrom(S, IF q.cur = "none" THEN NVal ELSE VRank(q.cur) - 1)
   IN Take(s, q.lim)
+WalkVals(q) == WalkValsS(Cur, q)
 
 ---------------------------------------------------------------------------
 TxOK(t) == /\ tx[t].st \in {"idle", "open", "applied", "notified", "done"}
@@ -227,20 +237,17 @@ Init == /\ phase = "pre"
         /\ kv \in [Key -> Val \cup {Absent}]     \* any pre-existing table content
         /\ idx = EmptyIdx
         /\ tx = [t \in Tx |-> FreshTx]
-        /\ out = "init"
 
 \* OpenTable over pre-existing rows: every row is inserted once, under the index lock
 Populate ==
   /\ phase = "pre"
   /\ phase' = "open"
   /\ idx' = IdxApply(EmptyIdx, [k \in Key |-> IF kv[k] = Absent THEN Keep ELSE kv[k]])
-  /\ out' = "populate"
   /\ UNCHANGED <<kv, tx>>
 
 Open(t) ==
   /\ phase = "open" /\ tx[t].st \in {"idle", "done"}
   /\ tx' = [tx EXCEPT ![t] = [FreshTx EXCEPT !.st = "open"]]
-  /\ out' = "open"
   /\ UNCHANGED <<phase, kv, idx>>
 
 \* Writer.set / Writer.delete for a map of writes m, through view u
@@ -256,28 +263,28 @@ Write(u, m) ==
 One(k, x) == [j \in Key |-> IF j = k THEN x ELSE Keep]
 Many(S, x) == [j \in Key |-> IF j \in S THEN x ELSE Keep]
 
-Set(u, k, v)  == Write(u, One(k, v)) /\ out' = "ok"
+Set(u, k, v)  == Write(u, One(k, v))
+\* result class of Upd: "notfound" when the row is not in the view, and nothing is written
+UpdOut(u, k)  == IF ViewOf(u)[k] = Absent THEN "notfound" ELSE "ok"
 Upd(u, k, v)  == /\ u \in Views /\ phase = "open"
                  /\ IF ViewOf(u)[k] = Absent
-                    THEN out' = "notfound" /\ UNCHANGED <<phase, kv, idx, tx>>
-                    ELSE Write(u, One(k, v)) /\ out' = "ok"
+                    THEN UNCHANGED <<phase, kv, idx, tx>>
+                    ELSE Write(u, One(k, v))
 DelK(u, k)    == /\ u \in Views /\ phase = "open"
-                 /\ out' = "ok"
                  /\ IF ViewOf(u)[k] = Absent
                     THEN UNCHANGED <<phase, kv, idx, tx>>
                     ELSE Write(u, One(k, Del))
 \* targets are chosen by an indexed query; by IndexEqualsScan that is the scan result
 UpdEq(u, v, v2) == /\ u \in Views /\ v # v2
-                   /\ Write(u, Many(IdxQuery(Eq(<<v>>), u), v2)) /\ out' = "ok"
+                   /\ Write(u, Many(IdxQuery(Eq(<<v>>), u), v2))
 DelEq(u, v)     == /\ u \in Views
-                   /\ Write(u, Many(IdxQuery(Eq(<<v>>), u), Del)) /\ out' = "ok"
+                   /\ Write(u, Many(IdxQuery(Eq(<<v>>), u), Del))
 
 \* replicated write: below gorp, reaches the index through the change observer only
 Remote(k, x) ==
   /\ phase = "open"
   /\ kv' = KvOver(kv, One(k, x))
   /\ idx' = IF x = Del THEN IdxDel(idx, k) ELSE IdxPut(idx, k, x)
-  /\ out' = "ok"
   /\ UNCHANGED <<phase, tx>>
 
 Finish(t) == [tx EXCEPT ![t] = [FreshTx EXCEPT !.st = "done"]]
@@ -287,30 +294,25 @@ Commit(t) ==
   /\ kv' = KvOver(kv, tx[t].w)
   /\ idx' = IdxApply(IF SelfObserve THEN IdxApply(idx, tx[t].w) ELSE idx, tx[t].d)
   /\ tx' = Finish(t)
-  /\ out' = "commit"
   /\ UNCHANGED phase
 KVCommit(t) ==
   /\ ~AtomicCommit /\ tx[t].st = "open"
   /\ kv' = KvOver(kv, tx[t].w)
   /\ tx' = [tx EXCEPT ![t].st = "applied"]
-  /\ out' = "kvcommit"
   /\ UNCHANGED <<phase, idx>>
 Notify(t) ==
   /\ ~AtomicCommit /\ SelfObserve /\ tx[t].st = "applied"
   /\ idx' = IdxApply(idx, tx[t].w)
   /\ tx' = [tx EXCEPT ![t].st = "notified"]
-  /\ out' = "notify"
   /\ UNCHANGED <<phase, kv>>
 Flush(t) ==
   /\ ~AtomicCommit /\ tx[t].st = (IF SelfObserve THEN "notified" ELSE "applied")
   /\ idx' = IdxApply(idx, tx[t].d)
   /\ tx' = Finish(t)
-  /\ out' = "commit"
   /\ UNCHANGED <<phase, kv>>
 Abort(t) ==
   /\ tx[t].st = "open"
   /\ tx' = Finish(t)
-  /\ out' = "abort"
   /\ UNCHANGED <<phase, kv, idx>>
 
 Next ==
@@ -349,16 +351,16 @@ IsolationStep == [][\A t \in Tx :
      /\ kv' = kv /\ idx' = idx
      /\ \A u \in Tx \ {t} : tx'[u] = tx[u]]_vars
 \* after commit every reader that has not itself written the row sees the committed value
-CommitVisible == [][out' = "commit" /\ AtomicCommit =>
-  \E t \in Tx : /\ tx[t].st = "open" /\ tx'[t].st = "done"
-                /\ \A k \in Key : tx[t].w[k] # Keep =>
+CommitVisible == [][\A t \in Tx : Commit(t) =>
+                \A k \in Key : tx[t].w[k] # Keep =>
                      /\ kv'[k] = (IF tx[t].w[k] = Del THEN Absent ELSE tx[t].w[k])
                      /\ \A u \in Views' : (u = DB \/ tx'[u].w[k] = Keep) =>
                           \A v \in Val : (k \in IdxGet(u, {v}))' <=> tx[t].w[k] = v]_vars
 \* after abort nobody sees anything of it
-AbortVanishes == [][out' = "abort" =>
+AbortVanishes == [][\A t \in Tx : Abort(t) =>
   /\ kv' = kv /\ idx' = idx
-  /\ \A u \in Views' : \A v \in Val : IdxGet(u, {v})' = IdxGet(u, {v})]_vars
+  /\ \A u \in Views' : \A v \in Val : IdxGet(u, {v})' = IdxGet(u, {v})
+  /\ \A u \in Views' : \A i \in 1..NT : IdxQuery(Trees[i], u)' = IdxQuery(Trees[i], u)]_vars
 \* the committed index is exactly the inverse of the committed table (masked configuration)
 CommittedIndexExact == phase = "open" => idx.r = kv
 \* quiescent form: once every transaction has ended the index keeps nothing else
